@@ -542,6 +542,34 @@ func (h *harness) summary() *result {
 			}
 		}
 	}
+	// Read-only queries: how often they were made, and next to what.
+	for _, q := range h.queries {
+		if q.end == 0 {
+			continue
+		}
+		h.label("query")
+		for _, x := range h.all {
+			if overlap(x, q.begin, q.end) {
+				h.label("query:overlaps-emit")
+				break
+			}
+		}
+		if q.busWriter {
+			h.label("query:next-to-subscribe-close-or-emitter-call")
+		}
+		if q.emitBlocked {
+			h.label("query:while-emit-blocked")
+			if q.busWriter {
+				h.label("query:while-emit-blocked:next-to-subscribe-close-or-emitter-call")
+			}
+			if q.outlasted {
+				h.label("query:while-emit-blocked:stall-outlasts-the-step")
+				if q.busWriter {
+					h.label("query:while-emit-blocked:stall-outlasts-the-step:next-to-subscribe-close-or-emitter-call")
+				}
+			}
+		}
+	}
 	// Emitters of one type that disagree on Stateful: which orders occurred, and whether the
 	// later one was opened in the middle of the history (after events of the type).
 	if h.mixedReplayChecked {
